@@ -226,12 +226,12 @@ def cases(c):
                             'cont': 'array', 'directed': True})
             out.append({'fn': 'LEVINSON', 'p': p, 'cplx': cplx, 'src': 'sample', 'kind': 'noise',
                         'indefinite': True, 'cont': 'array', 'directed': True})
-    n = 300 if c.tier == 'quick' else 8000
+    n = 1500 if c.tier == 'quick' else 12000
     for i in range(n):
         p = int(rng.integers(1, pmax + 1))
         src = gen.pick(rng, ['sample', 'rc', 'rc'])
         d = {'fn': 'LEVINSON', 'p': p, 'cplx': int(rng.integers(0, 2)), 'src': src,
-             'cont': gen.pick(rng, ['array', 'array', 'list']), 'i': i}
+             'cont': gen.pick(rng, ['array', 'array', 'list', 'intarray', 'intlist']), 'i': i}
         if src == 'sample':
             d['kind'] = gen.pick(rng, ['noise', 'tones', 'ar', 'int', 'trend'])
             d['N'] = int(rng.integers(2 * p + 3, 4 * p + 64))
@@ -240,7 +240,7 @@ def cases(c):
         if rng.uniform() < 0.15:
             d['indefinite'] = True
         out.append(d)
-    for i in range(120 if c.tier == 'quick' else 3000):
+    for i in range(600 if c.tier == 'quick' else 4000):
         out.append({'fn': gen.pick(rng, ['HERMTOEP', 'TOEPLITZ', 'CHOLESKY']),
                     'p': int(rng.integers(1, 21)), 'cplx': int(rng.integers(0, 2)),
                     'method': gen.pick(rng, ['scipy', 'numpy', 'numpy_solver']),
@@ -257,6 +257,16 @@ def run_case(c, d):
         r = make_ac(c, d)
         p = d['p']
         arg = list(r) if d['cont'] == 'list' else r
+        if d['cont'] in ('intarray', 'intlist'):
+            if d['cplx'] or d['src'] != 'sample':
+                c.discard('workload:integer-container-needs-real-sample-autocorrelation')
+                return
+            # integer lag products of integer data: an autocorrelation with integer dtype
+            xi = gen.data({'kind': 'int', 'N': max(2 * p + 3, int(d.get('N', 64))), 'cplx': False}, c.rng(d, 'xi'))
+            r = np.array([int(np.dot(xi[k:], xi[:len(xi) - k])) for k in range(p + 1)], dtype=np.int64)
+            if d.get('indefinite'):
+                r[int(c.rng(d, 'j').integers(1, p + 1))] = 2 * r[0]
+            arg = r if d['cont'] == 'intarray' else [int(v) for v in r]
         feats = {'fn': 'LEVINSON', 'cplx': bool(d['cplx'])}
         if d.get('indefinite'):
             lmin, _ = _definiteness(r, p)
